@@ -139,14 +139,19 @@ def run(ctx, res):
     # ---- isolation: a bad line inside VEVENT is dropped and recorded; elsewhere the parse fails
     n_iso = 0
     for i in range(600 if ctx.big else 120 * (1 + 3 * ctx.level)):
-        ev_lines = ["BEGIN:VEVENT", "UID:u%d" % i] + [n + ":" + v for n, v in rng.sample(T.PROP_MENU[:30], rng.randrange(1, 6))] + \
-                   ["BEGIN:VALARM", "ACTION:DISPLAY", "TRIGGER:-PT5M", "END:VALARM", "END:VEVENT"]
+        props = ["UID:u%d" % i] + [n + ":" + v for n, v in rng.sample(T.PROP_MENU[:30], rng.randrange(1, 6))]
+        alarm = ["BEGIN:VALARM", "ACTION:DISPLAY", "TRIGGER:-PT5M", "END:VALARM"]
+        k = rng.randrange(0, len(props) + 1)              # the nested component anywhere among the properties
+        body = props[:k] + alarm + props[k:]
+        ev_lines = ["BEGIN:VEVENT"] + body + ["END:VEVENT"]
         bad = rng.choice(BAD_LINES)
         # only lines the implementation itself refuses on their own are "bad lines" (e.g. it accepts DURATION:P)
         probe = icalendar.Event.from_ical("BEGIN:VEVENT\r\n" + bad + "\r\nEND:VEVENT\r\n")
         if not probe.errors:
             continue
-        pos = rng.randrange(1, len(ev_lines) - 5)
+        # any position directly inside the VEVENT: before, between or after nested components, never inside one
+        allowed = [j for j in range(1, len(ev_lines)) if not (1 + k < j <= 1 + k + 3)]
+        pos = rng.choice(allowed)
         with_bad = ev_lines[:pos] + [bad] + ev_lines[pos:]
         wrap = lambda ls: "BEGIN:VCALENDAR\r\n" + "\r\n".join(ls) + "\r\nEND:VCALENDAR\r\n"  # noqa: E731
         res.evaluations += 1
